@@ -12,6 +12,7 @@ CONSTANTS
   CfiLayouts = {"proc_all", "proc_each", "proc_rs"}
   Isa = "x64"
   WithScopes = FALSE
+  ExtraData = {FALSE}
   Retargets = {FALSE}
   AlignOpts = {0}
   InsFns = {"none"}
